@@ -307,6 +307,7 @@ func jobsRun(args []string) int {
 	}
 	phase("sequences", func() { jbSequences(r, bg, rng, *nseq, tmp, *skipShell) })
 	phase("concurrent", func() { jbConcurrent(r, bg, tmp, *skipShell) })
+	phase("overlap", func() { jbOverlap(r, bg, rng) })
 	phase("cancel", func() { jbCancel(r, *skipShell) })
 	phase("contexts", func() { jbContexts(r) })
 	phase("leak", func() { jbLeak(r, bg, *leakN, *skipShell) })
@@ -866,6 +867,191 @@ func jbConcurrent(r *jbRun, ctx context.Context, tmp string, skipShell bool) {
 	if c := atomic.LoadInt64(&scb); c != SG*SK {
 		r.flag("ShellJob: the callback ran %d times for %d concurrent executions", c, SG*SK)
 	}
+}
+
+// ---------------------------------------------------------------------------------------------- overlapping executions, scripted completion order
+
+// jbOvOutcome is what one scripted execution of the function returns.
+type jbOvOutcome struct {
+	res string
+	err error
+}
+
+func (o jbOvOutcome) String() string {
+	if o.err != nil {
+		return fmt.Sprintf("(%q, error %q)", o.res, o.err.Error())
+	}
+	return fmt.Sprintf("(%q, nil)", o.res)
+}
+
+const jbOvDeadline = 20 * time.Second
+
+// jbOverlapCase: k executions of ONE unwrapped FunctionJob are started one after the other (each is inside the function before the
+// next one is started) and then finish one at a time in the order `finish` (indices in start order). Everything is synchronised with
+// channels, nothing sleeps: when Execute of execution x has returned, every other unfinished execution is still held inside the
+// function, so x is the most recent COMPLETED execution and JobStatus / Result / Error must be x's outcome — whatever was started
+// later. Returns false when the executions could not be made to overlap (nothing is judged then).
+func jbOverlapCase(r *jbRun, ctx context.Context, outs []jbOvOutcome, finish []int) bool {
+	k := len(outs)
+	var ticket int64
+	entered := make(chan int, k)
+	release := make([]chan struct{}, k)
+	for i := range release {
+		release[i] = make(chan struct{})
+	}
+	fj := job.NewFunctionJob(func(context.Context) (string, error) {
+		i := int(atomic.AddInt64(&ticket, 1)) - 1
+		if i >= k {
+			return "unexpected extra call", nil
+		}
+		entered <- i
+		<-release[i]
+		return outs[i].res, outs[i].err
+	})
+	type ret struct{ err error }
+	done := make([]chan ret, k)
+	released := make([]bool, k)
+	cleanup := func() { // let everything that is still held go, and wait for it
+		for i := 0; i < k; i++ {
+			if !released[i] {
+				released[i] = true
+				close(release[i])
+			}
+		}
+		for i := 0; i < k; i++ {
+			if done[i] != nil {
+				select {
+				case <-done[i]:
+				case <-time.After(jbOvDeadline):
+				}
+			}
+		}
+	}
+	order := fmt.Sprintf("%d overlapping executions of one FunctionJob, started in the order 1..%d with outcomes %v, finishing in the order %v:", k, k, outs, jbOvOrder(finish))
+	// start: execution i is inside the function before execution i+1 is started, so the start order is 0,1,…,k-1
+	for i := 0; i < k; i++ {
+		done[i] = make(chan ret, 1)
+		go func(c chan ret) { c <- ret{fj.Execute(ctx)} }(done[i])
+		select {
+		case got := <-entered:
+			if got != i {
+				r.flag("%s the function was entered for ticket %d while starting execution %d", order, got+1, i+1)
+				cleanup()
+				return false
+			}
+		case <-time.After(jbOvDeadline):
+			// executions of one FunctionJob did not overlap (the function of execution i+1 was not entered while the earlier ones
+			// are held): nothing the property forbids; there is no overlap to judge
+			r.notes = append(r.notes, fmt.Sprintf("overlap phase: execution %d of one FunctionJob did not enter the function within %v while %d earlier ones were held", i+1, jbOvDeadline, i))
+			cleanup()
+			return false
+		}
+	}
+	for step, x := range finish {
+		released[x] = true
+		close(release[x])
+		var got ret
+		select {
+		case got = <-done[x]:
+			done[x] = nil
+		case <-time.After(jbOvDeadline):
+			r.flag("%s Execute of execution %d did not return within %v after its function returned", order, x+1, jbOvDeadline)
+			cleanup()
+			return true
+		}
+		st, res, e := fj.JobStatus(), fj.Result(), fj.Error()
+		want := outs[x]
+		wantRes := want.res
+		if want.err != nil {
+			wantRes = ""
+		}
+		what := fmt.Sprintf("%s after completion %d (execution %d, which returned %v; the others unfinished are still inside the function)", order, step+1, x+1, want)
+		if got.err != want.err {
+			r.flag("%s Execute returned %v, not its function's error", what, got.err)
+		}
+		if e != want.err || res != wantRes || (st == job.StatusOK) != (want.err == nil) || st == job.StatusNA {
+			r.flag("%s the accessors show status=%s result=%q err=%v, not the outcome of the most recent completed execution (want status=%s result=%q err=%v)",
+				what, jbStatus(st), res, e, map[bool]string{true: "ok", false: "failure"}[want.err == nil], wantRes, want.err)
+		}
+		r.count("overlap_completed", fmt.Sprintf("started %s of %d, finished %s", jbOrdinal(x+1), k, jbOrdinal(step+1)))
+	}
+	cleanup()
+	return true
+}
+
+func jbOrdinal(n int) string {
+	switch n {
+	case 1:
+		return "1st"
+	case 2:
+		return "2nd"
+	case 3:
+		return "3rd"
+	}
+	return strconv.Itoa(n) + "th"
+}
+
+func jbOvOrder(finish []int) []int {
+	o := make([]int, len(finish))
+	for i, x := range finish {
+		o[i] = x + 1
+	}
+	return o
+}
+
+func jbPermutations(k int) [][]int {
+	if k == 1 {
+		return [][]int{{0}}
+	}
+	var out [][]int
+	for _, p := range jbPermutations(k - 1) {
+		for pos := 0; pos <= len(p); pos++ {
+			q := append(append(append([]int{}, p[:pos]...), k-1), p[pos:]...)
+			out = append(out, q)
+		}
+	}
+	return out
+}
+
+// jbOverlap: property clause "report the outcome of their most recent COMPLETED execution … any number of consecutive and concurrent
+// executions of one job object". Two executions in both completion orders with every combination of nil / error outcomes, three
+// executions in all six completion orders, and a few seeded random cases with four.
+func jbOverlap(r *jbRun, ctx context.Context, rng *rand.Rand) {
+	mk := func(i int, failed bool) jbOvOutcome {
+		if failed {
+			return jbOvOutcome{res: fmt.Sprintf("ignored-%d", i+1), err: fmt.Errorf("error of execution %d", i+1)}
+		}
+		return jbOvOutcome{res: fmt.Sprintf("result of execution %d", i+1)}
+	}
+	cases, overlapped := 0, 0
+	stop := false // executions do not overlap at all: every further case would only wait for the same deadline
+	run := func(outs []jbOvOutcome, finish []int) {
+		if stop {
+			return
+		}
+		cases++
+		if jbOverlapCase(r, ctx, outs, finish) {
+			overlapped++
+		} else {
+			stop = true
+		}
+	}
+	for _, finish := range jbPermutations(2) {
+		for m := 0; m < 4; m++ {
+			run([]jbOvOutcome{mk(0, m&1 != 0), mk(1, m&2 != 0)}, finish)
+		}
+	}
+	for _, finish := range jbPermutations(3) {
+		for m := 0; m < 8; m++ {
+			run([]jbOvOutcome{mk(0, m&1 != 0), mk(1, m&2 != 0), mk(2, m&4 != 0)}, finish)
+		}
+	}
+	p4 := jbPermutations(4)
+	for c := 0; c < 24; c++ {
+		m := rng.Intn(16)
+		run([]jbOvOutcome{mk(0, m&1 != 0), mk(1, m&2 != 0), mk(2, m&4 != 0), mk(3, m&8 != 0)}, p4[rng.Intn(len(p4))])
+	}
+	r.dist["overlap"] = map[string]int{"cases": cases, "cases in which all executions overlapped": overlapped}
 }
 
 // ---------------------------------------------------------------------------------------------- cancellation
